@@ -2,25 +2,41 @@
 
 A case is a start model of the corpus plus a SEQUENCE of feature requests.  Requests come from the
 MFL feature table (`ModelFeatures.create_from_mfl_string(MFL).convert_to_funcs()`: every key is in
-the alphabet, checked by `selfcheck`) plus the add/remove functions of pharmpy.modeling.  After each
-request the oracle checks
+the alphabet, checked by `selfcheck`) plus the add/remove functions of pharmpy.modeling.  A refused
+request leaves the model unchanged and the sequence goes on.  After each request the oracle checks
 
-  total        the call returns a model or raises a documented refusal (ValueError,
+  not-total    the call returns a Model or raises a documented refusal (ValueError,
                NotImplementedError, ModelError/ModelSyntaxError); anything else is a violation
                `not-total:<fn>:<Type>@<frame>`;
   detect       the detector of the request's category reports the requested value (has_* /
                get_number_of_* / has_lag_time / get_bioavailability) and get_model_features(m')
-               parses to a space containing it;
-  other        categories from a different MFL group (absorption+delay+dose attributes /
-               elimination / distribution) are unchanged;  changes inside the absorption group are
-               either a documented coupling (table COUPLINGS, with the quoted sentence) or counted
-               as class `undocumented-coupling:<f>:<category>` -- never flagged;
-  idempotence  f(f(m)) has the same detectors and is function-equivalent to f(m) (pv.modeleval);
-  reversible   for the documented inverse pairs, undo(f(m)) has the parameters / random variables /
-               compartments of m and is function-equivalent to m when both get the same values
-               ("up to initial estimates"); asserted only on histories that start from a basic
-               model (create_basic_pk_model) so that "restores" is well defined;
+               parses to a space containing it (documented ambiguity: one single transit
+               compartment is a depot);
+  doses-changed / dose-does-not-reach-central / lag-or-bioavailability-without-dose /
+  undefined-symbol
+               the returned model is a model: same administered doses (admid, amount) as before,
+               every dose compartment reaches the central compartment, lag time / bioavailability
+               only on compartments that receive a dose, every symbol the model function reads has
+               a definition;
+  other-category-changed
+               categories of another MFL group (absorption + delay + dose attributes / elimination
+               / distribution) are unchanged; changes inside the absorption group are either a
+               documented coupling (table COUPLINGS, with the quoted sentence) or counted as class
+               `undocumented-coupling:<f>:<category>` -- never flagged;
+  idempotence  f(f(m)) has the same detectors and is function-equivalent to f(m) (pv.modeleval at
+               two sample points; a one-to-one renaming of parameters is not a change);
+  reversible   for the documented inverse pairs (add/remove peripheral, lag time, bioavailability;
+               transits n -> 0; ZO/MM/MIX -> FO elimination; absorption back to INST), undo(f(m))
+               has the parameters / random variables / compartments of m and is function-equivalent
+               to m when both get the same values ("up to initial estimates"); asserted only on
+               histories that start from create_basic_pk_model models, without metabolite / PD
+               extension, and when neither request is documented as not combinable with a feature
+               the model has;
   codegen      m'.update_source() and m'.code succeed or refuse with a documented error.
+
+After a metabolite / PD extension only not-total and codegen are asserted for further requests
+(detectors and feature categories are defined for structural PK models), and at most one extension
+is applied per history (what the structsearch tool does).
 """
 
 from __future__ import annotations
@@ -40,13 +56,16 @@ RULE = (
     'ABSORPTION(*);ELIMINATION(*);LAGTIME([ON,OFF]);TRANSITS([0,1,2,3,5],*);PERIPHERALS(0..3) plus add/remove_peripheral_compartment, '
     'add/remove_bioavailability (3 variants), add_metabolite (plain/presystemic), add_effect_compartment, set_direct_effect, '
     'add_indirect_effect. A refused request leaves the model unchanged and the sequence continues. Non-trivial = length >= 2, '
-    'requests from >= 2 categories, all requests succeeded. Distinct = (start model, sequence of request labels).'
+    'requests from >= 2 categories, all requests succeeded. Distinct = (start model, sequence of request labels). Classes hold the '
+    'ordered category pair matrix (pair:A>B), refusals by function and message, documented / undocumented couplings.'
 )
 ASSUMPTIONS = [
     'pv.modeleval.evaluate is the meaning of a model at a point (statements executed in order, ODE compared through right-hand sides, doses, lag, bioavailability)',
     'ValueError / NotImplementedError / ModelError raised anywhere below a setter count as documented refusals (also when they come from model '
     'validation, e.g. "Symbol K21 is not defined"); they are counted in classes refusal:* and never flagged',
-    'reversibility is asserted only for histories starting at create_basic_pk_model models',
+    'reversibility is asserted only for histories starting at create_basic_pk_model models (absorption: basic_iv only, setters never add IIVs)',
+    'get_model_features is called with its covariate detection switched off (cost; COVARIATE statements are not part of this property)',
+    'pharmpy results that depend on set iteration order are made reproducible by PYTHONHASHSEED=0 in worker processes only',
 ]
 
 MFL = 'ABSORPTION(*);ELIMINATION(*);LAGTIME([ON,OFF]);TRANSITS([0,1,2,3,5],*);PERIPHERALS(0..3)'
@@ -167,12 +186,17 @@ def resolve(spec):
 
 
 def _strategy(maxlen):
-    # categories drawn uniformly except EXT (index 6) which is rarer: structural PK categories give the pair matrix
+    # categories drawn uniformly except EXT (index 6) which is rarer. Two thirds of the sequences use every category at
+    # most once (the failures live in the cross-category pairs and triples), the rest is free (same category again:
+    # idempotence, n -> m changes).
     cat = st.sampled_from([0, 1, 2, 3, 4, 5] * 3 + [6] * 2)
+    item = st.tuples(cat, st.integers(0, 11)).map(list)
+    distinct = st.lists(item, min_size=1, max_size=maxlen, unique_by=lambda x: x[0])
+    free = st.lists(item, min_size=1, max_size=maxlen)
     return st.fixed_dictionaries(
         dict(
             start=st.integers(0, len(STARTS) - 1),
-            reqs=st.lists(st.tuples(cat, st.integers(0, 11)).map(list), min_size=1, max_size=maxlen),
+            reqs=st.one_of(distinct, distinct, free),
             pt=st.integers(0, 5),
         )
     )
@@ -785,6 +809,17 @@ def _nonmem_nonlinear_elimination_back_to_fo(spec):
     return False
 
 
+def _inst_after_seq(spec):
+    _, reqs = resolve(spec)
+    seen = False
+    for r in reqs:
+        if r.cat == 'ABSORPTION' and r.val == 'SEQ-ZO-FO':
+            seen = True
+        if seen and r.cat == 'ABSORPTION' and r.val == 'INST':
+            return True
+    return False
+
+
 def _inst_after_lag(spec):
     _, reqs = resolve(spec)
     seen_lag = False
@@ -799,6 +834,7 @@ def _inst_after_lag(spec):
 KNOWN_PREDICATES = {
     'nonmem_nonlinear_elimination_back_to_fo': _nonmem_nonlinear_elimination_back_to_fo,
     'inst_after_lag': _inst_after_lag,
+    'inst_after_seq': _inst_after_seq,
     'has_inst_request': _has_label_prefix('ABSORPTION(INST)'),
     'has_lag_request': _has_label_prefix('LAGTIME(ON)'),
     'has_bio_request': _has_label_prefix('add_bioavailability'),
